@@ -394,7 +394,7 @@ func init() {
 			"one granularity step is 100 nanodegrees (the writer's default granularity); the tolerance is 1e-7 + 1e-11 degrees to allow for the float multiplication in the decoder",
 			"with several cores a total order does not exist; only per-goroutine order is checked, and elements are generated pairwise distinct so that delivery can be matched one to one",
 		},
-		Quick: 480, Thorough: 12000,
+		Quick: 320, Thorough: 6000,
 		Batch: 8,
 		Required: []string{"block_split_nodes", "block_split_ways", "block_split_relations", "type_switch", "empty_string", "repeated_string_in_block",
 			"negative_id", "large_id", "extreme_id", "extreme_coord", "coord_error_near_full_step", "multi_core_case", "several_goroutines_delivered", "single_core_case",
